@@ -1,6 +1,7 @@
 """C06 - integer arithmetic is exact or the query fails: the checked chain."""
 from rules import chk as K
 from rules import shell as S
+from rules import filtering as FL
 
 
 def run(ctx):
@@ -13,6 +14,7 @@ def run(ctx):
     ctx.run(K.chk7_scalar_implementations)
     ctx.run(K.chk8_sum)
     ctx.run(S.erv1_final_pass)
+    ctx.run(FL.flw25_decoded_once)
     return ctx.finish(
         'Static analysis (syntax tree + compiler MIR) of the finite chain that carries "checked" '
         'from the SQL operator to the scalar implementation: registry rows, who may build '
